@@ -247,22 +247,29 @@ example : findMerge 12 1 [[1, 1, 1, 1, 1, 1], [6]] [[6], [1, 1, 1, 1, 1, 1]] [0]
 example : isPermOf [0] (mergeCandidates [[1, 1, 1, 1, 1, 1], [6]] [[6], [1, 1, 1, 1, 1, 1]]) = true ∧
     largestBlockSize [[1, 1, 1, 1, 1, 1], [6]] * 1 ≤ 12 := by decide
 
-/-- **merge_to_number_never_raises**: for `max_number >= 1` and *any* chunks (zero-length ones included)
-    `merge_to_number` does not raise: `heappop` never meets an empty heap, `chunks[j]` never runs off the end and
-    `chunks[i] + chunks[j]` never adds `None` (heap invariant `HInv`: every entry `(w, i, j)` has a live `i` that is
-    not the last live chunk, everything strictly between `i` and `j` is merged away, left indices are pairwise
-    distinct, every live chunk with a live chunk to its right owns an entry).  What is *not* proved is that the fuel
-    `(n+2)^2` of the modelled loop suffices (`.error .nofuel`, never observed). -/
-theorem merge_to_number_never_raises (cs : List Nat) {M : Nat} (hM : 1 ≤ M) : mergeToNumberFull cs M ≠ .error .raised :=
-  mergeToNumberFull_safe cs hM
+/-- **merge_to_number_total**: for `max_number >= 1` and *any* chunks (zero-length ones included) `merge_to_number`
+    returns.  It does not raise - `heappop` never meets an empty heap, `chunks[j]` never runs off the end,
+    `chunks[i] + chunks[j]` never adds `None` (heap invariant `HInv`: every entry `(w, i, j)` has a live `i` that is not
+    the last live chunk, everything strictly between `i` and `j` is merged away, left indices are pairwise distinct,
+    every live chunk with a live chunk to its right owns an entry) - and the `while nmerges > 0` loop terminates: a
+    re-insertion turns a stale entry into an accurate one, a merge lowers `nmerges` and leaves at most `len - 1` stale
+    entries, so `nmerges * len + stale` steps suffice (within the model's fuel `(n + 2)^2`). -/
+theorem merge_to_number_total (cs : List Nat) {M : Nat} (hM : 1 ≤ M) : ∃ r, mergeToNumberFull cs M = .ok r :=
+  mergeToNumberFull_total cs hM
 
-/-- **plan_rechunk_never_raises**: on valid chunkings of one shape (positive item size) the modelled `plan_rechunk` -
-    `find_split_rechunk` (`assert len(c) <= max_number`, the divisions), `merge_to_number`, `find_merge_rechunk` (its
-    two assertions, `divide_to_width`) - never raises, for every threshold, byte limit and candidate order.
-    (An order that is not a permutation of the candidates is rejected as `.error .oracle`; fuel: see above.) -/
+/-- **plan_rechunk_total** (with `plan_rechunk_never_raises` as its corollary): on valid chunkings of one shape
+    (positive item size) the modelled `plan_rechunk` - `find_split_rechunk` (`assert len(c) <= max_number`, the
+    divisions), `merge_to_number`, `find_merge_rechunk` (its two assertions, `divide_to_width`) - returns, for every
+    threshold and byte limit: the only error left is an *observed* candidate order that does not fit the model (not a
+    permutation of the candidates / too few orders), which the harness reports as a disagreement. -/
+theorem plan_rechunk_total {shape : List Nat} {old new : List (List Nat)} {itemsize thr limitBytes : Nat}
+    {orders : List (List Nat)} (ho : AllStage shape old) (hn : AllStage shape new) (hi : 0 < itemsize) :
+    ∀ e, planRechunk old new itemsize thr limitBytes orders = .error e → e = .oracle := planRechunk_safe ho hn hi
+
 theorem plan_rechunk_never_raises {shape : List Nat} {old new : List (List Nat)} {itemsize thr limitBytes : Nat}
     {orders : List (List Nat)} (ho : AllStage shape old) (hn : AllStage shape new) (hi : 0 < itemsize) :
-    planRechunk old new itemsize thr limitBytes orders ≠ .error .raised := planRechunk_safe ho hn hi
+    planRechunk old new itemsize thr limitBytes orders ≠ .error .raised := by
+  intro h; cases planRechunk_safe ho hn hi _ h
 
 /-- **plan_rechunk_stages_valid**: every stage of every plan `plan_rechunk` returns is a valid chunking of the
     array's shape and the last stage is the target - for every threshold, byte limit, item size and candidate
